@@ -30,12 +30,29 @@ func (ft *fnTrans) call(x ssa.Value, c *ssa.CallCommon, h *Heap, reach string) {
 	sig := c.Signature()
 	key, callee := ft.calleeKey(c)
 	var args []TV
+	if strings.HasPrefix(key, "sync/atomic.Add") {
+		loc := ft.locOf(c.Args[0])
+		nv := vc.define(nameOr(x, "atomic"), "Int", "(+ "+ft.load(loc, *h)+" "+ft.val(c.Args[1])+")")
+		ft.store(loc, h, nv)
+		ft.vals[x] = nv
+		vc.assumed["sync/atomic.Add* modelled as sequential +"] = true
+		return
+	}
 	if c.IsInvoke() {
 		args = append(args, TV{ft.val(c.Value), c.Value.Type()})
 		ft.safe("nil", reach, not(eq(ft.val(c.Value), "(mk-iface 0 0)")), "method call on nil interface value ("+c.Method.Name()+")", c.Pos())
 	}
 	for _, a := range c.Args {
 		args = append(args, TV{ft.val(a), a.Type()})
+	}
+	if strings.HasPrefix(key, "sync/atomic.Add") {
+		// modelled sequentially (no concurrency in the verified subset)
+		loc := ft.locOf(c.Args[0])
+		nv := vc.define(nameOr(x, "atomic"), "Int", "(+ "+ft.load(loc, *h)+" "+ft.val(c.Args[1])+")")
+		ft.store(loc, h, nv)
+		ft.vals[x] = nv
+		vc.assumed["sync/atomic.Add* modelled as sequential +"] = true
+		return
 	}
 	if nativeModel(key) {
 		ft.vals[x] = ft.native(key, args)
